@@ -36,7 +36,9 @@ func getSwapInSenderStates() States {
 			Action: &SetBlindingKeyActionWrapper{next: &CreateSwapRequestAction{}},
 			Events: Events{
 				Event_ActionSucceeded: State_SwapInSender_SendRequest,
-				Event_ActionFailed:    State_SwapCanceled,
+				// The request may already be with the peer (it is sent before the
+				// next state is stored): tell the peer.
+				Event_ActionFailed: State_SendCancel,
 			},
 			FailOnrecover: true,
 		},
